@@ -615,7 +615,7 @@ fn op_hyper(req: &Value) -> Value {
 
 fn opt_f(x: Option<&f64>) -> Value {
     match x {
-        Some(v) => json!(*v as u64),
+        Some(v) => json!(*v as i64),
         None => Value::Null,
     }
 }
@@ -630,7 +630,14 @@ fn g<T: Into<Value>>(r: Result<T, String>) -> Value {
 fn op_array(req: &Value) -> Value {
     let shape = usizes(&req["shape"]);
     let n: usize = shape.iter().product();
-    let array = match Array::new((0..n).map(|i| i as f64).collect::<Vec<_>>(), Shape(shape.clone()))
+    // element i holds its own flat position; with "signed" every odd position is negated (value classes matter to `sum`)
+    let signed = req["signed"].as_bool().unwrap_or(false);
+    let array = match Array::new(
+        (0..n)
+            .map(|i| if signed && i % 2 == 1 { -(i as f64) } else { i as f64 })
+            .collect::<Vec<_>>(),
+        Shape(shape.clone()),
+    )
     {
         Ok(a) => a,
         Err(e) => return json!({"input_err": e.to_string()}),
@@ -735,7 +742,7 @@ fn op_array(req: &Value) -> Value {
                     let to_array = guarded(|| {
                         let arr = view.to_array();
                         json!({"shape": arr.shape().0.clone(),
-                               "data": arr.as_slice().iter().map(|x| *x as u64).collect::<Vec<_>>()})
+                               "data": arr.as_slice().iter().map(|x| *x as i64).collect::<Vec<_>>()})
                     });
                     json!({"dims": g(dims), "trace": g(trace), "to_array": g(to_array)})
                 }
@@ -758,7 +765,7 @@ fn op_array(req: &Value) -> Value {
                 let len = guarded(|| it.len());
                 let item = guarded(|| {
                     it.next().map(|view| {
-                        view.iter().map(|x| *x as u64).collect::<Vec<_>>()
+                        view.iter().map(|x| *x as i64).collect::<Vec<_>>()
                     })
                 });
                 let stop = item.is_err();
@@ -778,7 +785,7 @@ fn op_array(req: &Value) -> Value {
         let r = guarded(|| {
             let s = array.sum(Axis(a));
             json!({"shape": s.shape().0.clone(),
-                   "data": s.as_slice().iter().map(|x| *x as u64).collect::<Vec<_>>()})
+                   "data": s.as_slice().iter().map(|x| *x as i64).collect::<Vec<_>>()})
         });
         sums.push(json!({"axis": a, "r": g(r)}));
     }
